@@ -533,6 +533,10 @@ def functional(circuit, objs, filters):
     errs = []
     byname = {b.name: b for b in circuit.getblocks()}
     for flt, f in filters:
+        missing = [n for n in (f['ctrl'], f.get('ctrl2')) if n is not None and n not in byname]
+        if missing:
+            errs.append(('C15.filter_control', f"running: {f}: no block named {missing} in the circuit"))
+            continue
         ctrl = byname[f['ctrl']]
         out = flt({'x': 1})
         if f['kind'] == 'add_output2':
